@@ -648,6 +648,284 @@ theorem unmap_handshake {P s} (hi : Inv P s) (hquiet : s.quiescent) (a : Nat) (k
     · intro id; rw [hb]; exact hstop id
     · intro id b hb' hne; rw [hb]; rw [hqb] at hb'; exact hkeep id b hb' hne
 
+/-! ### K1 needs `clear` -/
+
+/-- watches the RT half holds or will receive, plus requests under way -/
+def Sys.credits (s : Sys) : Nat := s.rt.watch + watchesOf s.toRT + s.toNRT.length
+
+theorem unMap_queue {n n' : NRT} {a k ms} (h : n.unMap a k = some (n', ms)) :
+    n'.learnQ = n.learnQ ∧ watchesOf ms = 0 := by
+  cases hl : imLookup n.invMap a with
+  | none => simp [NRT.unMap, hl] at h; obtain ⟨rfl, rfl⟩ := h; simp [watchesOf]
+  | some im =>
+    cases hk : (if k then im.coarse else im.fine) with
+    | none =>
+      simp only [NRT.unMap, hl, hk] at h
+      simp at h; obtain ⟨rfl, rfl⟩ := h; simp [watchesOf]
+    | some kid =>
+      simp only [NRT.unMap, hl, hk] at h
+      cases hs : n.storage with
+      | none => simp [hs] at h
+      | some st =>
+        cases hkm : killMap kid st.mapping with
+        | none => simp [hs, hkm] at h
+        | some mp =>
+          simp [hs, hkm] at h; obtain ⟨rfl, rfl⟩ := h
+          simp [watchesOf]
+
+theorem map_queue {n n' : NRT} {a k ms} (h : n.map a k = some (n', ms)) :
+    n'.learnQ.length = n.learnQ.length + watchesOf ms := by
+  unfold NRT.map at h
+  split at h
+  · simp at h; obtain ⟨rfl, rfl⟩ := h; simp [watchesOf]
+  · cases hu : n.unMap a k with
+    | none => simp [hu] at h
+    | some r =>
+      obtain ⟨n1, ms1⟩ := r
+      simp [hu] at h; obtain ⟨rfl, rfl⟩ := h
+      obtain ⟨h1, h2⟩ := unMap_queue hu
+      simp [watchesOf_append, watchesOf, h1, h2]
+
+theorem finishLearn_queue {n n' : NRT} {ns : Storage} {a k id ms}
+    (h : n.finishLearn ns a k id = some (n', ms)) : n'.learnQ = n.learnQ ∧ watchesOf ms = 0 := by
+  unfold NRT.finishLearn at h
+  cases hl : imLookup n.invMap a with
+  | none => simp [hl] at h
+  | some im =>
+    simp only [hl] at h
+    split at h
+    · simp at h
+    · simp at h; obtain ⟨rfl, rfl⟩ := h; simp [watchesOf]
+
+theorem useFreeID_queue {P : List PortSpec} {n n' : NRT} {id ms} (h : NRT.useFreeID P n id = some (n', ms)) :
+    n'.learnQ = n.learnQ.drop 1 ∧ watchesOf ms = 0 := by
+  cases hq : n.learnQ with
+  | nil => simp [NRT.useFreeID, hq] at h; obtain ⟨rfl, rfl⟩ := h; simp [hq, watchesOf]
+  | cons x q =>
+    obtain ⟨a, k⟩ := x
+    simp only [NRT.useFreeID, hq] at h
+    cases hp : P[a]? with
+    | none => simp [hp] at h
+    | some p =>
+      simp only [hp] at h
+      split at h
+      · simp at h
+      · rename_i n1 ns hr
+        obtain ⟨h1, h2⟩ := finishLearn_queue h
+        refine ⟨?_, h2⟩
+        rw [h1]
+        split at hr
+        · simp [NRT.generateNewBijection] at hr; obtain ⟨rfl, _⟩ := hr; simp
+        · cases hs : n.storage <;> simp [hs] at hr
+          obtain ⟨rfl, _⟩ := hr; simp
+
+theorem handleCC_credits {r r' : RT} {id val m req} (h : r.handleCC id val = some (r', m, req)) :
+    r'.watch + req.toList.length = r.watch := by
+  unfold RT.handleCC at h
+  have tail : ∀ st' : Option Storage,
+      (if !r.pending.contains id ∧ r.watch ≠ 0 then
+        some (({ storage := st', pending := pendInsert r.pending id, watch := r.watch - 1 } : RT), (none : Option Msg), some id)
+       else some ({ r with storage := st' }, none, none)) = some (r', m, req) →
+      r'.watch + req.toList.length = r.watch := by
+    intro st' hh
+    split at hh
+    · rename_i hc
+      simp at hh; obtain ⟨rfl, _, rfl⟩ := hh
+      simp at hc ⊢; omega
+    · simp at hh; obtain ⟨rfl, _, rfl⟩ := hh; simp
+  cases hst : r.storage with
+  | none => simp only [hst] at h; exact tail none h
+  | some st =>
+    simp only [hst] at h
+    cases hh : st.handleCC id val with
+    | none => simp [hh] at h
+    | some x =>
+      obtain ⟨st2, m2⟩ := x
+      simp only [hh, Option.map_some] at h
+      cases m2 with
+      | some mm => simp at h; obtain ⟨rfl, _, rfl⟩ := h; simp
+      | none => exact tail (some st2) h
+
+/-- Without `clear`, watches and queued addresses stay in balance, so a request can never
+    meet an empty learn queue: the K1 trigger needs a `clear` in the history. -/
+theorem k1_free_without_clear (P : List PortSpec) :
+    ∀ (ops : List Op) (s : Sys), Op.clear ∉ ops → s.credits = s.nrt.learnQ.length →
+      anyStep hazardK1 P s ops = false := by
+  intro ops
+  induction ops with
+  | nil => intro s _ _; rfl
+  | cons op ops ih =>
+    intro s hnc hbal
+    have hnc' : Op.clear ∉ ops := fun h => hnc (List.mem_cons_of_mem _ h)
+    have hop : op ≠ .clear := fun h => hnc (h ▸ List.mem_cons_self)
+    simp only [anyStep, Bool.or_eq_false_iff]
+    constructor
+    · cases op <;> simp [hazardK1]
+      intro hne
+      cases hq : s.toNRT with
+      | nil => simp [hq] at hne
+      | cons id rest =>
+        intro hl
+        simp [Sys.credits, hq] at hbal
+        cases hlq : s.nrt.learnQ with
+        | nil => rw [hlq] at hbal; simp at hbal
+        | cons x q => simp [hlq] at hl
+    · cases hs : step P s op with
+      | none => rfl
+      | some r =>
+        obtain ⟨s', out⟩ := r
+        simp only
+        apply ih s' hnc'
+        cases op with
+        | clear => exact absurd rfl hop
+        | map a k =>
+          simp only [step] at hs
+          cases hm : s.nrt.map a k with
+          | none => simp [hm] at hs
+          | some r =>
+            obtain ⟨n', ms⟩ := r
+            simp [hm] at hs; obtain ⟨rfl, _⟩ := hs
+            have := map_queue hm
+            simp [Sys.credits, watchesOf_append] at hbal ⊢; omega
+        | unmap a k =>
+          simp only [step] at hs
+          cases hm : s.nrt.unMap a k with
+          | none => simp [hm] at hs
+          | some r =>
+            obtain ⟨n', ms⟩ := r
+            simp [hm] at hs; obtain ⟨rfl, _⟩ := hs
+            obtain ⟨h1, h2⟩ := unMap_queue hm
+            simp [Sys.credits, watchesOf_append, h1, h2] at hbal ⊢; omega
+        | cc id val =>
+          simp only [step] at hs
+          cases hm : s.rt.handleCC id val with
+          | none => simp [hm] at hs
+          | some r =>
+            obtain ⟨r', m, req⟩ := r
+            simp [hm] at hs; obtain ⟨rfl, _⟩ := hs
+            have := handleCC_credits hm
+            simp [Sys.credits] at hbal ⊢; omega
+        | deliverRT =>
+          simp only [step] at hs
+          cases hq : s.toRT with
+          | nil => simp [hq] at hs; obtain ⟨rfl, _⟩ := hs; exact hbal
+          | cons m rest =>
+            simp only [hq] at hs
+            cases hr : s.rt.recv m with
+            | none => simp [hr] at hs
+            | some r' =>
+              simp [hr] at hs; obtain ⟨rfl, _⟩ := hs
+              cases m with
+              | addWatch =>
+                simp [RT.recv] at hr; subst hr
+                simp [Sys.credits, hq, watchesOf] at hbal ⊢; omega
+              | bind ns ans =>
+                have hw : r'.watch = s.rt.watch := by
+                  simp only [RT.recv] at hr
+                  cases hst : s.rt.storage with
+                  | none => simp [hst] at hr; subst hr; rfl
+                  | some old =>
+                    simp only [hst] at hr
+                    cases hc : ns.cloneValues old with
+                    | none => simp [hc] at hr
+                    | some ns' => simp [hc] at hr; subst hr; rfl
+                simp [Sys.credits, hq, watchesOf, hw] at hbal ⊢; omega
+        | deliverNRT =>
+          simp only [step] at hs
+          cases hq : s.toNRT with
+          | nil => simp [hq] at hs; obtain ⟨rfl, _⟩ := hs; exact hbal
+          | cons id rest =>
+            simp only [hq] at hs
+            cases hu : NRT.useFreeID P s.nrt id with
+            | none => simp [hu] at hs
+            | some r =>
+              obtain ⟨n', ms⟩ := r
+              simp [hu] at hs; obtain ⟨rfl, _⟩ := hs
+              obtain ⟨h1, h2⟩ := useFreeID_queue hu
+              simp [Sys.credits, hq, watchesOf_append, h1, h2] at hbal ⊢
+              omega
+
+/-! ### the non-realtime half refines the abstract learn table -/
+
+theorem nrt_binding_none_iff {P n} (h : NrtOk P n) (id : Nat) :
+    n.binding id = none ↔ id ∉ ids n.mapping := by
+  cases hs : n.storage with
+  | none => simp [NRT.binding, NRT.mapping, hs]
+  | some st =>
+    simp only [NRT.binding, NRT.mapping, hs]
+    exact ⟨not_mem_of_binding_none (h.stok st hs), binding_none_of_not_mem⟩
+
+theorem unMap_table {P n a k n' ms} (h : NrtOk P n) (heq : n.unMap a k = some (n', ms)) :
+    tableOf n' = (tableOf n).unmap a k := by
+  obtain ⟨hkeep, hstop⟩ := unMap_bindings h heq
+  obtain ⟨n1, ms1, heq1, hok, hq, _, _, _, hcase⟩ := unMap_ok h a k
+  rw [heq] at heq1; cases heq1
+  simp only [tableOf, Table.unmap, hq, Table.mk.injEq, true_and]
+  funext id
+  by_cases hb : n.binding id = some (a, k)
+  · simp only [hb, ↓reduceIte]
+    cases hb' : n'.binding id with
+    | none => rfl
+    | some b =>
+      exfalso
+      -- `id` is the controller that was removed
+      rcases hcase with ⟨_, hst⟩ | ⟨c, st, ns, im, hst, _, hl, hs, hns, hst', _⟩
+      · have : n'.binding id = n.binding id := by simp [NRT.binding, hst]
+        rw [this, hb] at hb'; cases hb'; exact hstop id (by rw [this, hb])
+      · obtain ⟨im2, hl2, hs2⟩ := binding_sel h hb
+        rw [hl] at hl2; cases hl2; rw [hs] at hs2; cases hs2
+        have := (binding_filter st id (List.replicate st.values.length 0)).2
+        simp [NRT.binding, hst', hns, this] at hb'
+  · simp only [hb, ↓reduceIte]
+    cases hb0 : n.binding id with
+    | some b => exact hkeep id b hb0 (by intro e; subst e; exact hb hb0)
+    | none =>
+      rw [nrt_binding_none_iff hok]
+      have h0 := (nrt_binding_none_iff h id).mp hb0
+      rcases hcase with ⟨_, hst⟩ | ⟨c, st, ns, im, hst, _, _, _, hns, hst', _⟩
+      · simpa [NRT.mapping, hst] using h0
+      · intro hin
+        simp only [NRT.mapping, hst', hns] at hin
+        exact h0 (by simpa [NRT.mapping, hst] using (mem_ids_filter.mp hin).1)
+
+theorem map_table {P : List PortSpec} {n a k n' ms} (h : NrtOk P n) (ha : a < P.length)
+    (heq : n.map a k = some (n', ms)) : tableOf n' = (tableOf n).map a k := by
+  rcases map_ok h a k ha with ⟨hin, heq1⟩ | ⟨hnin, n1, ms1, hun, heq1, _⟩
+  · rw [heq] at heq1; cases heq1
+    simp [Table.map, tableOf, hin]
+  · rw [heq] at heq1; cases heq1
+    have := unMap_table h hun
+    simp only [tableOf, Table.unmap, Table.mk.injEq] at this
+    have hq := (unMap_queue hun).1
+    simp only [Table.map, tableOf, hnin, ↓reduceIte, Table.unmap, Table.mk.injEq]
+    refine ⟨trivial, ?_⟩
+    have hb : ({ n1 with learnQ := n.learnQ ++ [(a, k)] } : NRT).binding = n1.binding := by
+      funext x; simp [NRT.binding]
+    rw [hb]; exact this.2
+
+theorem useFreeID_table {P n a k q id n' ms} (h : NrtOk P n) (hq : n.learnQ = (a, k) :: q)
+    (hid : id ∉ ids n.mapping) (heq : NRT.useFreeID P n id = some (n', ms)) :
+    tableOf n' = (tableOf n).learn id := by
+  obtain ⟨hb, hold, hq', ns, hst, _⟩ := useFreeID_bindings h hq hid heq
+  obtain ⟨n1, ns1, slot, cb, p, extra, heq1, hok, hst1, _, hmp, _⟩ := useFreeID_ok id h hq hid
+  rw [heq] at heq1; cases heq1
+  simp only [tableOf, Table.learn, hq, hq', Table.mk.injEq, true_and]
+  funext x
+  by_cases hx : x = id
+  · subst hx; simp [hb]
+  · simp only [hx, ↓reduceIte]
+    cases hb0 : n.binding x with
+    | some b => exact hold x b hb0
+    | none =>
+      rw [nrt_binding_none_iff hok]
+      have h0 := (nrt_binding_none_iff h x).mp hb0
+      intro hin
+      rw [hst] at hst1; cases hst1
+      simp only [NRT.mapping, hst, hmp, ids_append, ids_cons, ids_nil, List.mem_append, List.mem_singleton] at hin
+      rcases hin with hin | hin
+      · exact h0 hin
+      · exact hx hin
+
 /-! ### the history of a concrete run, as data -/
 
 /-- the (state before, op) pairs of a run, most recent first -/
